@@ -76,6 +76,7 @@ func cmdCheck(args []string) {
 	prop := fs.String("prop", "", "property id")
 	tier := fs.String("tier", "quick", "quick|thorough")
 	noReplay := fs.Bool("noreplay", false, "skip replay")
+	outDir := fs.String("out", "", "directory for evidence/ and replays/ (default: the verif dir); use a scratch dir when checking a modified tree")
 	verbose := fs.Bool("v", false, "verbose")
 	fs.Parse(args)
 	if t := os.Getenv("VERIF_TIER"); t == "quick" || t == "thorough" {
@@ -329,7 +330,10 @@ func cmdCheck(args []string) {
 			open[f.Obligation] = f
 		}
 	}
-	replayDir := filepath.Join(*verif, "replays", cfg.ID)
+	if *outDir == "" {
+		*outDir = *verif
+	}
+	replayDir := filepath.Join(*outDir, "replays", cfg.ID)
 	os.RemoveAll(replayDir)
 	total, discharged, violations, known := 0, 0, 0, 0
 	byBackend := map[string]int{}
@@ -541,9 +545,9 @@ func cmdCheck(args []string) {
 		"assumptions": asl, "wall_s": time.Since(t0).Seconds(), "violations": violations,
 	}
 	if len(toolErrors) == 0 {
-		os.MkdirAll(filepath.Join(*verif, "evidence"), 0o755)
+		os.MkdirAll(filepath.Join(*outDir, "evidence"), 0o755)
 		js, _ := json.MarshalIndent(ev, "", " ")
-		os.WriteFile(filepath.Join(*verif, "evidence", cfg.ID+".json"), js, 0o644)
+		os.WriteFile(filepath.Join(*outDir, "evidence", cfg.ID+".json"), js, 0o644)
 	}
 	fmt.Printf("SUMMARY property=%s tier=%s functions=%d obligations=%d discharged=%d known=%d violations=%d outside-subset=%d wall=%.1fs\n",
 		cfg.ID, *tier, len(names), total, discharged, known, violations, len(unsupported), time.Since(t0).Seconds())
